@@ -215,6 +215,7 @@ func (c *Channel) Empty() error {
 	c.Lock()
 	defer c.Unlock()
 	verif.Ev("EmptyBegin", "c", vc(c))
+	defer verif.Ev("EmptyEnd", "c", vc(c))
 
 	c.initPQ()
 	verif.Yield("empty.afterReset", vc(c))
@@ -234,9 +235,7 @@ func (c *Channel) Empty() error {
 	}
 
 finish:
-	err := c.backend.Empty()
-	verif.Ev("EmptyEnd", "c", vc(c))
-	return err
+	return c.backend.Empty()
 }
 
 // flush persists all the messages in internal memory buffers to the backend
